@@ -14,7 +14,7 @@ RULE = ("Cases: signals of 48..512 samples (tones, AM/FM, noise, walk, levels) x
         "mean over p<P of [get_next_imf(x + a*cos(2pi z t + 2pi p/P)) - a*cos(...)] (1e-12 rel), flag == any member flag; "
         "mask_sift == the specified loop (frequency ladder z/step^i or the user's list, amplitude rule per mode, "
         "residual peeling, sift_thresh / continue-flag stops) assembled from single masked extractions; returned "
-        "mask_freqs fed back as a list reproduce the output; zero amplitude == unmasked get_next_imf (1e-12); the "
+        "mask_freqs fed back as a list reproduce the output; the identical call repeated after the caller scaled the returned arrays in place returns the same frequencies and IMFs (bit for bit); zero amplitude == unmasked get_next_imf (1e-12); the "
         "result for nprocesses=n is np.array_equal to nprocesses=1. Worker pids are read from the guarded trace. "
         "Non-trivial: amplitude > 0, nphases >= 2 and >= 2 IMFs.")
 ASSUMPTIONS = ["single-IMF extraction (get_next_imf) is the trusted building block here - it is decided by C04",
@@ -151,8 +151,9 @@ def oracle_sift(case, rec):
         raise Discard('convergence error')
     except Exception as e:
         raise Violation('C07/mask_sift/raises/%s/%s' % (type(e).__name__, freqs if isinstance(freqs, str) else type(freqs).__name__), repr(e))
-    got = np.asarray(got)
-    mf = np.asarray(mf, dtype=float)
+    raw_out = (got, mf)
+    got = np.array(got, dtype=float)
+    mf = np.array(mf, dtype=float)
     src = freqs if isinstance(freqs, str) else 'list' if isinstance(freqs, list) else 'float'
     if src == 'if' and not (np.all(np.isfinite(mf)) and 0 < mf[0] < 0.5):
         raise Discard("'if': the instantaneous-frequency estimate of the first IMF is undefined or outside (0, 0.5) "
@@ -218,6 +219,20 @@ def oracle_sift(case, rec):
         raise Violation('C07/mask_sift/feedback-raises/' + type(e).__name__, repr(e))
     if again.shape != got.shape or np.abs(again - got).max() / scale > 1e-12:
         raise Violation('C07/mask_sift/returned-freqs-do-not-reproduce-output/' + src, '')
+    # the caller overwrites what was returned (say, converts the frequencies to Hz in place) and repeats the call
+    for r in raw_out:
+        if isinstance(r, np.ndarray) and r.flags.writeable:
+            r *= 128.0
+        elif isinstance(r, list):
+            r[:] = [128.0 * v for v in r]
+    try:
+        got2, mf2 = emd.sift.mask_sift(x.copy(), mask_freqs=list(fa) if isinstance(fa, list) else fa, nprocesses=1,
+                                       ret_mask_freq=True, **kw)
+    except Exception as e:
+        raise Violation('C07/mask_sift/repeat-raises/' + type(e).__name__, repr(e))
+    if not (np.array_equal(np.asarray(mf2, dtype=float), mf, equal_nan=True) and np.array_equal(np.asarray(got2), got)):
+        raise Violation('C07/mask_sift/repeat-after-caller-edited-the-returned-arrays/' + src,
+                        'frequencies %r then %r' % (mf.tolist(), np.asarray(mf2, dtype=float).tolist()))
     pids = [p for p in tr.pids('get_next_imf') if p != os.getpid()]
     rec.cls('worker_pids=%s' % (len(pids) if len(pids) < 8 else '8+'))
     rec.cls('freqs=' + src)
